@@ -60,6 +60,23 @@ def toCompact : DNA → Nest
   | .mk v [] => .v v
   | d => toNested d
 
+/-- One node of the compact form: a node without children is its bare value (also `None`). -/
+def nestNodeC : Val → List Nest → Nest
+  | v, [] => .v v
+  | v, k :: ks => nestNode v (k :: ks)
+
+mutual
+  /-- The `value` of the compact JSON form exactly as `sym_jsonify(compact=True, type_info=False)`
+  recurses (base.py:1403-1420): a node without children is its bare value at EVERY depth, so an
+  empty DNA below the root is `null` (`toCompact` above does this for the root only; the two
+  agree unless an empty DNA is a child). -/
+  def toCompactDeep : DNA → Nest
+    | .mk v cs => nestNodeC v (toCompactDeepList cs)
+  def toCompactDeepList : List DNA → List Nest
+    | [] => []
+    | c :: cs => toCompactDeep c :: toCompactDeepList cs
+end
+
 def numVal : Nest → Option Val
   | .v (.int i) => some (.int i)
   | .v (.flt n d) => some (.flt n d)
@@ -99,6 +116,18 @@ mutual
       | some v, some c => some (.mk v [c])
       | _, _ => none
 end
+
+/-! ### the verbose JSON form -/
+
+/-- `d.to_json(compact=False)` (base.py:1399-1405): the symbolic-Object form of the ROOT only —
+its `value` and the list `children`; every child is serialised by its own `to_json()`, i.e. in
+the compact form (`{'format': 'compact', 'value': …}`). -/
+def toVerbose : DNA → Val × List Nest
+  | .mk v cs => (v, toCompactDeepList cs)
+
+/-- `from_json` of the verbose form (base.py:1475-1480): the children are parsed from their
+compact values, then `DNA(value, children)` normalises (`mk'`). -/
+def parseVerbose (j : Val × List Nest) : Option DNA := (parseList j.2).map (DNA.mk' j.1)
 
 /-! ### from_numbers -/
 
